@@ -4,9 +4,9 @@ import ErdosVerif.Props.C01_Run
 /-!
 # C01 over a whole run — what the ledgers hold
 
-In every state a run of the simulator model reaches at the head of the `simulate()` loop and
-when it ends normally (any world satisfying `lwf0`, any decision tape, any draw tape, any fuel),
-for every worker of every pool:
+In every state a run of the simulator model can be in — at the head of the `simulate()` loop, at
+a normal end, out of fuel or at the raise point of an aborted handler (any world satisfying
+`lwf0`, any decision tape, any draw tape, any fuel) — for every worker of every pool:
 
 * every resident task placed with a non-batch strategy has a ledger entry that holds, per
   resource type, exactly the demand of that strategy (`resident_holds_demand_*`);
@@ -34,16 +34,25 @@ def HoldsDemands (w : Worker) : Prop :=
 theorem holdsDemands_of_tok (w : Worker) (hl : w.LOK) : HoldsDemands w :=
   ⟨hl.1.taskHeld, fun n => (hl.1.demand_eq n).1, fun n => (hl.1.demand_eq n).2, hl.2.batchHeld⟩
 
-/-- **Every resident holds the demand of the strategy it was placed with, and Σ demand of the
-resident strategies (+ batch placeholders + profiles) = total − available ≤ total — when the run
-ended normally.** -/
-theorem resident_demands_at_end (s0 : SimS) (fuel : Nat) (h : lwf0 s0 = true) (hok : (simulate s0 fuel).1 = none) :
+/-- **In every state a run can be in** — after the constructor and any number of loop iterations,
+ended normally, out of fuel or aborted by an exception at any point of any handler — **every
+resident holds the demand of the strategy it was placed with** (a batch once, in its placeholder's
+entry) **and Σ demand of the resident strategies (+ batch placeholders + profiles) = total −
+available ≤ total**, per worker and resource type. -/
+theorem resident_demands (s0 : SimS) (fuel : Nat) (h : lwf0 s0 = true) :
     ∀ p ∈ (simulate s0 fuel).2.pools.toList, ∀ w ∈ p.workers, HoldsDemands w :=
-  fun p hp w hw => holdsDemands_of_tok w ((simulate_ledger s0 fuel (good_initial s0 h) hok).2 p hp w hw)
+  fun p hp w hw => holdsDemands_of_tok w ((simulate_ledger_weak s0 fuel (good_initial s0 h)).2 p hp w hw)
 
-/-- **… and at the head of the `simulate()` loop after any number `k` of completed iterations.** -/
+/-- The same when the run ended normally (a corollary, kept for the registry). -/
+theorem resident_demands_at_end (s0 : SimS) (fuel : Nat) (h : lwf0 s0 = true) (_hok : (simulate s0 fuel).1 = none) :
+    ∀ p ∈ (simulate s0 fuel).2.pools.toList, ∀ w ∈ p.workers, HoldsDemands w :=
+  resident_demands s0 fuel h
+
+/-- **… and at the head of the `simulate()` loop after any number `k` of completed iterations**
+(and at the raise point if one of them raised). -/
 theorem resident_demands_at_loop_head (s0 : SimS) (k : Nat) (h : lwf0 s0 = true) :
-    HoldsAfter (fun _ s => ∀ p ∈ s.pools.toList, ∀ w ∈ p.workers, HoldsDemands w) WInv
+    HoldsAfter (fun _ s => ∀ p ∈ s.pools.toList, ∀ w ∈ p.workers, HoldsDemands w)
+      (fun s => ∀ p ∈ s.pools.toList, ∀ w ∈ p.workers, HoldsDemands w)
       ((ExceptT.run (do init; runK k : SimM Bool)).run s0) := by
   have := loop_head_ledger s0 k (good_initial s0 h)
   revert this
@@ -51,13 +60,13 @@ theorem resident_demands_at_loop_head (s0 : SimS) (k : Nat) (h : lwf0 s0 = true)
   | mk r s =>
     cases r with
     | ok a => intro hA p hp w hw; exact holdsDemands_of_tok w (hA.2 p hp w hw)
-    | error e => intro hW; exact hW
+    | error e => intro hW p hp w hw; exact holdsDemands_of_tok w (hW.2 p hp w hw)
 
-/-- C01's inequality alone: at a normal end no worker's resident strategies demand more of a
+/-- C01's inequality alone: in every state no worker's resident strategies demand more of a
 resource type than the worker has. -/
-theorem resident_demand_le_total (s0 : SimS) (fuel : Nat) (h : lwf0 s0 = true) (hok : (simulate s0 fuel).1 = none) :
+theorem resident_demand_le_total (s0 : SimS) (fuel : Nat) (h : lwf0 s0 = true) :
     ∀ p ∈ (simulate s0 fuel).2.pools.toList, ∀ w ∈ p.workers, ∀ n, taskDemand w.placed n ≤ byName w.res.total n :=
-  fun p hp w hw => (resident_demands_at_end s0 fuel h hok p hp w hw).2.2.1
+  fun p hp w hw => (resident_demands s0 fuel h p hp w hw).2.2.1
 
 /-- Non-vacuity of the hypothesis: the example world of `C01_Run` is well-formed for the ledger theorems. -/
 theorem exWorld_lwf : lwf0 exWorld = true := by
